@@ -350,6 +350,46 @@ fn oracle(case: &[u8], obs: &mut Obs) -> Result<(), String> {
         _ => run_script::<_, Rela>(e, class, &bytes, n, &|i, v| v.field_eq(&relas[i]), &script, TYPES[t], obs),
     });
     r.map_err(|s| format!("{} {} : {}", enc.name(), SPEC_NAMES[spec as usize], s))?;
+    // the relocation iterators once more through DIRECT calls on the concrete types (run_script is generic, so an
+    // inherent method that shadows a trait method would not be seen there)
+    if t == 7 || t == 8 {
+        let ks = [c.below(n as u64 + 2) as usize, n, usize::MAX, usize::MAX / es, (usize::MAX / es).wrapping_add(2), 1usize << 61];
+        let consumed = c.below(n as u64 + 1) as usize;
+        let r2: Result<(), String> = with_endian!(spec, |e| (|| -> Result<(), String> {
+            for k in ks {
+                let want = consumed.checked_add(k).filter(|i| *i < n);
+                if t == 7 {
+                    let mut it = elf::relocation::RelIterator::new(e, class, bytes);
+                    for _ in 0..consumed {
+                        it.next();
+                    }
+                    let got = it.nth(k);
+                    if got.is_some() != want.is_some() || matches!((&got, want), (Some(g), Some(i)) if !g.field_eq(&rels[i])) {
+                        return Err(format!("RelIterator over {} whole entries: nth({}) after {} items returned {:?}, expected entry {:?}", n, k, consumed, got, want));
+                    }
+                    let it = elf::relocation::RelIterator::new(e, class, bytes);
+                    if it.count() != n || elf::relocation::RelIterator::new(e, class, bytes).last().map(|g| g.field_eq(&rels[n - 1])) == Some(false) {
+                        return Err(format!("RelIterator over {} whole entries: count()/last() disagree with the table", n));
+                    }
+                } else {
+                    let mut it = elf::relocation::RelaIterator::new(e, class, bytes);
+                    for _ in 0..consumed {
+                        it.next();
+                    }
+                    let got = it.nth(k);
+                    if got.is_some() != want.is_some() || matches!((&got, want), (Some(g), Some(i)) if !g.field_eq(&relas[i])) {
+                        return Err(format!("RelaIterator over {} whole entries: nth({}) after {} items returned {:?}, expected entry {:?}", n, k, consumed, got, want));
+                    }
+                    let it = elf::relocation::RelaIterator::new(e, class, bytes);
+                    if it.count() != n || elf::relocation::RelaIterator::new(e, class, bytes).last().map(|g| g.field_eq(&relas[n - 1])) == Some(false) {
+                        return Err(format!("RelaIterator over {} whole entries: count()/last() disagree with the table", n));
+                    }
+                }
+            }
+            Ok(())
+        })());
+        r2.map_err(|s| format!("{} {} : {}", enc.name(), SPEC_NAMES[spec as usize], s))?;
+    }
     obs.label_if(residue != 0, "ragged");
     obs.label_if(n == 0, "no_whole_entry");
     obs.label(TYPES[t]);
@@ -420,7 +460,7 @@ pub fn property() -> Property {
     Property {
         id: "C09",
         level: "exploration",
-        rule: "cases are (entry type in {SectionHeader,ProgramHeader,Symbol,Dyn,VersionIndex,u32,u64,Rel,Rela}, class, byte order, fixed or run-time spec, n<=40 entries encoded by the independent ELF writer from generated field values, 0..entsize-1 trailing bytes, an access script of len/is_empty/get(i)/iter/into_iter/interleaved-iterator steps, nth(k) on the advanced iterator, skip/step_by/count/last/fuse on fresh and partly consumed iterators, with i in 0..n+2, k*2^32+i and near usize::MAX incl. indices whose byte offset wraps); oracle: len==floor(bytes/ABI entsize), get(i) Ok iff i<n and equal to the encoded entry, iter and into_iter yield exactly n items with item i == get(i) == encoded entry, is_empty==(n==0), independent of order/repetition. Non-trivial: ragged byte length or an access at index len; distinct by (bytes, script) hash. Subcheck big_tables: VersionIndex/u32/u64 tables of k*65536 + {-2..3, 255..257, 0..3000} pairwise distinct entries (k in 1..3), the same oracle with accesses at 65535/65536/65537/n-1/n, nth and skip/step_by distances above 2^16; every case counts as non-trivial.",
+        rule: "cases are (entry type in {SectionHeader,ProgramHeader,Symbol,Dyn,VersionIndex,u32,u64,Rel,Rela}, class, byte order, fixed or run-time spec, n<=40 entries encoded by the independent ELF writer from generated field values, 0..entsize-1 trailing bytes, an access script of len/is_empty/get(i)/iter/into_iter/interleaved-iterator steps, nth(k) on the advanced iterator, skip/step_by/count/last/fuse on fresh and partly consumed iterators (the relocation iterators also through direct calls on the concrete types), with i in 0..n+2, k*2^32+i and near usize::MAX incl. indices whose byte offset wraps); oracle: len==floor(bytes/ABI entsize), get(i) Ok iff i<n and equal to the encoded entry, iter and into_iter yield exactly n items with item i == get(i) == encoded entry, is_empty==(n==0), independent of order/repetition. Non-trivial: ragged byte length or an access at index len; distinct by (bytes, script) hash. Subcheck big_tables: VersionIndex/u32/u64 tables of k*65536 + {-2..3, 255..257, 0..3000} pairwise distinct entries (k in 1..3), the same oracle with accesses at 65535/65536/65537/n-1/n, nth and skip/step_by distances above 2^16; every case counts as non-trivial.",
         assumptions: &["entry sizes are the ABI sizes from <elf.h> (writer self-check)"],
         subs: vec![Sub::new("tables", oracle, 4096, 1_500_000, 40_000_000), Sub::new("big_tables", oracle_big, 160, 1_500, 60_000).shrink(60)],
         extras: vec![crate::fuzz::c09_choice],
